@@ -39,6 +39,13 @@ CLAIMED = {
         "is read as a float. Precedence/associativity, implicit multiplication and function-name mapping (bison LALR tables, std::map of std::function) are NOT covered.",
    note="Trusted: std::string/strtol (ISO C)/errno/fast_float stubs; the NUMERIC token language transcribed from tokenizer.re; CBMC.",
    tech="contract-based verification with CBMC on mechanically extracted function text: pre/postcondition harness with libc/std::string stubs; bounded model checking (string length) — bounded stand-in for one clause"),
+ "C20": dict(cat="proof", design="§4 C20",
+   text="A SMALL PART of the property: contract proof (CBMC, full domain: all 256 byte values) that load_typeid returns exactly the in-range type codes unchanged and never returns "
+        "normally on an out-of-range byte (exceptions raised only for out-of-range input); bounded stand-in (every byte string up to 6 characters, 8 thorough) that the validation scan of "
+        "load_helper(integer_class&) stays inside the string and lets only strings of the decimal shape reach the integer backend. cereal's reader, size fields, sharing references "
+        "(load_rcp_basic), direct make_rcp of non-canonical objects and all post-load operations are NOT under contract.",
+   note="Trusted: Archive/std::string stubs, integer backend memory-safe on NUL-terminated strings, extraction rules (template header strip), CBMC.",
+   tech="contract-based deductive verification with CBMC on mechanically extracted function text (route F full domain for load_typeid; bounded string length for the load_helper scan)"),
  "C24": dict(cat="model_checking", design="§4 C24",
    text="BOUNDED stand-in (not a proof): the real text of ~55 routines of dense_matrix.cpp is executed symbolically by CBMC over the field abstraction GF(3) (GF(5) and 4x4 in the "
         "thorough tier) for EVERY matrix of the stated shape (3x3, 3x4, 2x3; LU/LDL also 4x4), against pre/postconditions that are textbook linear algebra written over the field "
@@ -130,7 +137,7 @@ NA = {
  "C46": "Contejean-Devie is a stack-driven search whose termination and completeness are a mathematical theorem over unbounded integer vectors; the body is std::vector<DenseMatrix>/vector<vector<bool>> C++ and no unwinding bound closes the while loop.",
 }
 # claimed-in-design but not yet built: listed as not applicable *for now* with that reason, replaced as they are built
-PENDING = {'C20': 'claimed in DESIGN.md §4 but its check is not built yet in this commit; not claimed until bin/check C20 exists', 'C24': 'claimed in DESIGN.md §4 but its check is not built yet in this commit; not claimed until bin/check C24 exists'}
+PENDING = {'C24': 'claimed in DESIGN.md §4 but its check is not built yet in this commit; not claimed until bin/check C24 exists'}
 
 def main():
     ids = [json.loads(l)["id"] for l in open(os.path.join(V, "properties.jsonl"))]
